@@ -87,7 +87,13 @@ pub fn large_docs() -> Vec<Doc> {
     }
     let bam_bytes = ok("bam finish", w.into_inner().finish());
     let bai = ok("bam::fs::index", with_temp(&bam_bytes, |p| bam::fs::index(p)));
-    docs.push(make_doc(Format::Bam, "bam-large-header", "large", bam_bytes, false));
+    let bam_doc = make_doc(Format::Bam, "bam-large-header", "large", bam_bytes, false);
+    // the same payload in maximal members: 65536 bytes each (noodles never fills a member beyond 65280)
+    if let Some(inner) = bam_doc.inner.as_ref() {
+        let blocks: Vec<Vec<u8>> = inner.bytes.chunks(65536).map(|c| c.to_vec()).collect();
+        docs.push(make_doc(Format::Bam, "bam-large-header-65536-byte-members", "large", vmc::oracle::bgzf::make_file(&blocks, true, 6).0, false));
+    }
+    docs.push(bam_doc);
     let mut w = bam::bai::io::Writer::new(Vec::new());
     ok("bai write", w.write_index(&bai));
     let mut d = make_doc(Format::Bai, "bai-large", "large", w.into_inner(), false);
@@ -100,6 +106,10 @@ pub fn large_docs() -> Vec<Doc> {
     docs.push(make_doc(Format::Vcf, "vcf-large-header", "large", text.clone().into_bytes(), false));
     let vcfgz = bgzip(text.as_bytes());
     let tbi = ok("vcf::fs::index", with_temp(&vcfgz, |p| vcf::fs::index(p)));
+    {
+        let blocks: Vec<Vec<u8>> = text.as_bytes().chunks(65536).map(|c| c.to_vec()).collect();
+        docs.push(make_doc(Format::VcfGz, "vcfgz-large-header-65536-byte-members", "large", vmc::oracle::bgzf::make_file(&blocks, true, 6).0, false));
+    }
     docs.push(make_doc(Format::VcfGz, "vcfgz-large-header", "large", vcfgz, false));
     let mut w = tabix::io::Writer::new(Vec::new());
     ok("tbi write", w.write_index(&tbi));
